@@ -2300,3 +2300,89 @@ mod tests {
         assert_eq!(src_transport.received_rtp_packets(), 1);
     }
 }
+
+/// Verification hook (H6): read-only snapshot of the listener registry, the
+/// rewrite bridge's per-source state and the SRTP gate inputs. Channels are
+/// identified by their index in the caller-supplied `txs` slice
+/// (`usize::MAX` when the sender matches none of them).
+#[cfg(rustrtc_verif)]
+#[derive(Debug, Clone, Default, PartialEq, Eq)]
+pub struct VerifRegistrySnapshot {
+    pub by_ssrc: Vec<(u32, usize)>,
+    pub by_rid: Vec<(String, usize)>,
+    pub by_mid: Vec<(String, usize)>,
+    /// routes in registry order: (mid, payload types in order, channel, provisional)
+    pub routes: Vec<(Option<String>, Vec<u8>, usize, bool)>,
+    pub has_rtcp_listener: bool,
+    pub has_bridge: bool,
+    pub has_srtp_session: bool,
+    pub srtp_required: bool,
+    /// bridge per-source state sorted by source SSRC:
+    /// (src_ssrc, out_ssrc, next_sequence_number, last_source_timestamp, timestamp_offset)
+    pub bridge_streams: Vec<(u32, u32, u16, Option<u32>, u32)>,
+}
+
+#[cfg(rustrtc_verif)]
+impl RtpTransport {
+    pub fn verif_registry_snapshot(
+        &self,
+        txs: &[mpsc::Sender<(RtpPacket, SocketAddr)>],
+    ) -> VerifRegistrySnapshot {
+        let idx = |tx: &mpsc::Sender<(RtpPacket, SocketAddr)>| {
+            txs.iter()
+                .position(|t| t.same_channel(tx))
+                .unwrap_or(usize::MAX)
+        };
+        let mut snap = VerifRegistrySnapshot::default();
+        {
+            let listeners = self.listeners.lock();
+            snap.by_ssrc = listeners.by_ssrc.iter().map(|(k, v)| (*k, idx(v))).collect();
+            snap.by_ssrc.sort();
+            snap.by_rid = listeners
+                .by_rid
+                .iter()
+                .map(|(k, v)| (k.clone(), idx(v)))
+                .collect();
+            snap.by_rid.sort();
+            snap.by_mid = listeners
+                .by_mid
+                .iter()
+                .map(|(k, v)| (k.clone(), idx(v)))
+                .collect();
+            snap.by_mid.sort();
+            snap.routes = listeners
+                .routes
+                .iter()
+                .map(|r| {
+                    (
+                        r.mid.clone(),
+                        r.payload_types.clone(),
+                        idx(&r.tx),
+                        r.provisional,
+                    )
+                })
+                .collect();
+        }
+        snap.has_rtcp_listener = self.rtcp_listener.lock().is_some();
+        snap.has_bridge = self.has_bridge.load(Ordering::Acquire);
+        snap.has_srtp_session = self.srtp_session.lock().is_some();
+        snap.srtp_required = self.srtp_required;
+        if let Some(bridge) = self.rewrite_bridge.lock().as_ref() {
+            let streams = bridge.streams.borrow();
+            snap.bridge_streams = streams
+                .iter()
+                .map(|(src, s)| {
+                    (
+                        *src,
+                        s.out_ssrc,
+                        s.next_sequence_number,
+                        s.last_source_timestamp,
+                        s.timestamp_offset,
+                    )
+                })
+                .collect();
+            snap.bridge_streams.sort();
+        }
+        snap
+    }
+}
